@@ -131,6 +131,29 @@ def run_unit(unit, rlimit=30, canary=False, extra=(), keep=True):
         final = (p, js, cls)
         if not has_rlimit:
             break
+    # a semantic failure is confirmed under two other solver seeds before it is believed: an obligation that verifies under any
+    # seed is proved (the solver is trusted), so only failures that persist count (guards against solver instability)
+    def _nsem(c):
+        return sum(1 for k, _ in c if k[0] == 'semantic')
+    if final[1] is not None and _nsem(final[2]) > 0 and not canary:
+        rl, ex = ladder[min(step, len(ladder) - 1)]
+        res['reruns'] = []
+        for seed in (7, 42):
+            cmd2 = _verus_cmd(out, rl, ex + ['--smt-option', 'smt.random_seed=%d' % seed, '--smt-option', 'sat.random_seed=%d' % seed])
+            p2 = subprocess.run(cmd2, cwd=BUILD, capture_output=True, text=True)
+            try:
+                js2 = json.loads(p2.stdout)
+            except Exception:
+                continue
+            cls2 = [(classify(d), d) for d in _parse_diags(p2.stderr)]
+            if any(c[0] == 'rlimit' or c[0] == 'compile' for c, _ in cls2):
+                continue
+            res['reruns'].append({'seed': seed, 'semantic_failures': _nsem(cls2)})
+            if _nsem(cls2) < _nsem(final[2]):
+                final = (p2, js2, cls2)
+                res['cmd'] = ' '.join(cmd2)
+            if _nsem(final[2]) == 0:
+                break
     p, js, cls = final
     if js is None:
         res['status'] = 'undecided'
